@@ -1443,7 +1443,8 @@ class SyncObj(object):
                 not self.__forceLogCompaction:
             return
 
-        if self.__conf.logCompactionSplit:
+        if self.__conf.logCompactionSplit and self.__selfNode is not None:
+            # (a read-only node has no slot among the voters: it compacts whenever it is due)
             allNodeIds = sorted([node.id for node in (self.__otherNodes | {self.__selfNode})])
             nodesCount = len(allNodeIds)
             selfIdx = allNodeIds.index(self.__selfNode.id)
